@@ -62,6 +62,7 @@ type childResult struct {
 	Hung      int            `json:"hung,omitempty"`
 	HungWhat  string         `json:"hung_what,omitempty"`
 	ReadBad   []string       `json:"read_bad,omitempty"`
+	IndexBad  []string       `json:"index_bad,omitempty"` // churn facet: quiescent index listing vs the records that must exist
 	Reads     int            `json:"reads"`
 	RWOverlap bool           `json:"rw_overlap"`
 	Classes   []string       `json:"classes,omitempty"`
@@ -156,7 +157,14 @@ func childMain() int {
 				}
 			}
 			cr.RWOverlap = readerOverlapsWriter(res.Events)
+			if p.Churn > 0 {
+				cr.RWOverlap = anyOverlapsWriter(res.Events)
+			}
 			cr.ReadBad, cr.Reads = res.ReadViolations, res.Reads
+			cr.IndexBad = res.IndexViolations
+			if p.Churn > 0 {
+				cr.Classes = append(cr.Classes, fmt.Sprintf("churn:%d", p.Churn))
+			}
 			seen := map[string]bool{}
 			for _, c := range p.Clients {
 				for _, op := range c {
@@ -203,6 +211,21 @@ func readerOverlapsWriter(evs []Event) bool {
 	for _, w := range ws {
 		for _, r := range rs {
 			if w.Client != r.Client && w.Call <= r.Ret && r.Call <= w.Ret {
+				return true
+			}
+		}
+	}
+	return false
+}
+
+// anyOverlapsWriter: a request of one client overlapped in time a write request of another.
+func anyOverlapsWriter(evs []Event) bool {
+	for i, w := range evs {
+		if w.Client >= clientSetup || !isWrite(w.Op.K) {
+			continue
+		}
+		for j, o := range evs {
+			if i != j && o.Client < clientSetup && o.Client != w.Client && w.Call <= o.Ret && o.Call <= w.Ret {
 				return true
 			}
 		}
@@ -331,7 +354,17 @@ func classifyPair(p racePair) string {
 	// returns the internal slice, published by SetContentByteArray without t.mu): whoever
 	// looks at the response bytes (here the harness decoding BytesVal, in production the
 	// protobuf marshaller) races with the writer that filled the slice
-	if (p.A == "swamp.wrapMsgpackBody" && strings.Contains(p.StackB, "lin.obsOf;")) || (p.B == "swamp.wrapMsgpackBody" && strings.Contains(p.StackA, "lin.obsOf;")) {
+	// (server-side readers of that slice: the filter evaluation of a concurrent read — gateway.isMsgpackEncoded
+	// and the msgpack walkers behind it — look at the bytes GetContentByteArray handed them)
+	bodyReader := func(top, stack string) bool {
+		return strings.Contains(stack, "lin.obsOf;") || strings.HasPrefix(top, "gateway.") || strings.HasPrefix(top, "msgpackpatch.") ||
+			// the gRPC stream server marshalling Treasure.BytesVal
+			strings.HasPrefix(top, "protowire.") || strings.Contains(stack, "proto.MarshalOptions.")
+	}
+	// the slice was filled either by PatchFields (wrapMsgpackBody) or by the client that sent it in a Set
+	// (the harness builds it in lin.bodyBytes and the in-process handler stores it by reference)
+	bodyWriter := func(top string) bool { return top == "swamp.wrapMsgpackBody" || top == "lin.bodyBytes" }
+	if (bodyWriter(p.A) && bodyReader(p.B, p.StackB)) || (bodyWriter(p.B) && bodyReader(p.A, p.StackA)) {
 		return wSetGet
 	}
 	if (reTreasureSave.MatchString(p.A) && reTreasureWriter.MatchString(p.B)) || (reTreasureSave.MatchString(p.B) && reTreasureWriter.MatchString(p.A)) {
@@ -560,6 +593,56 @@ func TestC10Storm(t *testing.T) {
 	c10Campaign(t, "storm", c10StormRule, genStorm, pbt.Count(12, 240), 6)
 }
 
+// genChurn: see churn.go. 2–4 value writers re-sort the built VALUE_INT64 index while 1–3
+// removers Delete / ShiftByKeys other records, 0–2 inserters add new ones and 0–2 readers
+// page the index; record x<i> belongs to client i % clients.
+func genChurn(t *rapid.T) Program {
+	p := Program{Config: rapid.IntRange(0, 2).Draw(t, "config"), Churn: rapid.SampledFrom([]int{30, 120, 400}).Draw(t, "records")}
+	nw := rapid.IntRange(2, 4).Draw(t, "writers")
+	nd := rapid.IntRange(1, 3).Draw(t, "removers")
+	na := rapid.IntRange(0, 2).Draw(t, "inserters")
+	nr := rapid.IntRange(0, 2).Draw(t, "readers")
+	nc := nw + nd + na + nr
+	own := func(c, j int) int64 { // j-th record of client c among the pre-filled ones
+		per := p.Churn / nc
+		if per < 1 {
+			per = 1
+		}
+		return int64(c + (j%per)*nc)
+	}
+	for c := 0; c < nc; c++ {
+		var ops []Op
+		n := rapid.IntRange(12, 30).Draw(t, "nops")
+		for j := 0; j < n; j++ {
+			switch {
+			case c < nw:
+				ops = append(ops, Op{K: "xset", Key: -1, N: own(c, rapid.IntRange(0, 1000).Draw(t, "rec")), CV: int64(rapid.IntRange(0, 2000).Draw(t, "val"))})
+			case c < nw+nd:
+				k := "xdel"
+				if rapid.IntRange(0, 2).Draw(t, "shift") == 0 {
+					k = "xshift"
+				}
+				ops = append(ops, Op{K: k, Key: -1, N: own(c, j)})
+			case c < nw+nd+na:
+				// new records beyond the pre-filled range, still owned by this client
+				ops = append(ops, Op{K: "xset", Key: -1, N: int64(p.Churn + nc + c + j*nc), CV: int64(rapid.IntRange(0, 2000).Draw(t, "val"))})
+			default:
+				ops = append(ops, Op{K: "xindex", Key: -1, Mode: rapid.IntRange(0, 1).Draw(t, "desc"), CV: int64(rapid.IntRange(0, 40).Draw(t, "from")), N: int64(rapid.IntRange(0, 50).Draw(t, "limit"))})
+			}
+		}
+		p.Clients = append(p.Clients, ops)
+	}
+	return p
+}
+
+const c10ChurnRule = "swamp of 30/120/400 int64 records with the VALUE_INT64 (asc+desc) and KEY indexes already built; 2–4 clients change values (every Set re-sorts the value index), 1–3 clients Delete/ShiftByKeys OTHER records, " +
+	"0–2 insert new records, 0–2 page the index; each record belongs to exactly one client; -race child; oracle: main-facet clauses (no death, no (nil,nil), no panic record, race pairs) + after all clients returned GetAll and the full " +
+	"VALUE_INT64 ASC/DESC listings hold exactly the records that must exist with their last written values, without duplicates, in value order; non-trivial = a read or write of one client overlapped a write of another"
+
+func TestC10Churn(t *testing.T) {
+	c10Campaign(t, "churn", c10ChurnRule, genChurn, pbt.Count(96, 4800), 12)
+}
+
 func TestC10Main(t *testing.T) {
 	perChild := 40
 	if pbt.GetEnv().Tier == "thorough" {
@@ -752,6 +835,9 @@ func c10Judge(t *testing.T, tot *c10Totals, rule string, chunk []Program, bo bat
 			} else {
 				violation("panic", msg, p, nil)
 			}
+		}
+		if len(cr.IndexBad) > 0 {
+			violation("index-mismatch", fmt.Sprintf("%s, %d pre-filled int64 records, every record touched by one client only; after all clients returned: %s", cfgNames[cr.Config], p.Churn, strings.Join(cr.IndexBad, " | ")), p, nil)
 		}
 		if len(cr.Malformed) > 0 {
 			violation("malformed", fmt.Sprintf("%s: %v", cfgNames[cr.Config], cr.Malformed), p, nil)
